@@ -236,7 +236,7 @@ def check_random(ctx: Ctx, J, dtype):
 def main(ctx: Ctx):
     ctx.lean_gate()
     rng = ctx.rng
-    n = 120 if ctx.tier == "quick" else 4000
+    n = 120 if ctx.tier == "quick" else 20000
     for i in range(n):
         dtype = torch.float64 if i % 3 else torch.float32
         m = rng.choice([2, 2, 3, 3, 4]) if ctx.tier == "quick" else rng.choice([2, 3, 3, 4, 4])
